@@ -409,7 +409,7 @@ func TestC14(t *testing.T) {
 	defer finish(t, rec)
 	rec.SetJournalAll(true)
 	rec.Assume("events emitted while no control connection exists are not owed; the version byte of EVENT frames is not asserted")
-	runProp(t, rec, "history", perShard(evid.Pick(1000, 30000)), func(rt *rapid.T) c14Case {
+	runProp(t, rec, "history", perShard(evid.Pick(1000, 60000)), func(rt *rapid.T) c14Case {
 		c := c14Gen(rt)
 		var labels []string
 		reg := map[int]bool{}
